@@ -258,9 +258,12 @@ func (w *Reconciler) getTask(
 ) (jobtasks.Task, error) {
 	task, err := taskMgr.Lister().Get(ref.Name)
 	if err == nil {
-		return task, nil
-	}
-	if !kerrors.IsNotFound(err) || !ref.FinishTimestamp.IsZero() {
+		// The cached task may also be older than what was already recorded from an
+		// earlier lookup from the apiserver; do not go back in time in that case.
+		if !isTaskRefAhead(ref, task) {
+			return task, nil
+		}
+	} else if !kerrors.IsNotFound(err) || !ref.FinishTimestamp.IsZero() {
 		return nil, nil
 	}
 	task, err = taskMgr.Client().Get(ctx, ref.Name)
@@ -271,6 +274,16 @@ func (w *Reconciler) getTask(
 		return nil, err
 	}
 	return task, nil
+}
+
+// isTaskRefAhead returns true if the TaskRef already records progress (running or
+// finished) that the given task does not show.
+func isTaskRefAhead(ref execution.TaskRef, task jobtasks.Task) bool {
+	current := task.GetTaskRef()
+	if !ref.FinishTimestamp.IsZero() && current.FinishTimestamp.IsZero() {
+		return true
+	}
+	return !ref.RunningTimestamp.IsZero() && current.RunningTimestamp.IsZero() && current.FinishTimestamp.IsZero()
 }
 
 // updateTaskRefStatus will update the CreatedTask fields in the Job's status from a list of tasks.
